@@ -5,7 +5,8 @@
     harness generates dyadic set-ups whose float arithmetic is exact).
 
     Case layout (a rational = numerator, denominator):
-      start stop dt rev period  dtdx(2) lo(2) hi(2) life  ncls cfac(2)*ncls
+      start stop dt rev period cont  dtdx(2) lo(2) hi(2) life  ncls cfac(2)*ncls
+                                          -- cont = continuous-release frequency in seconds, 0 = discrete release
       nfiles { nrec { time u(2) scalar(2) }*nrec }*nfiles
       nrows { time mult tag xcode class }*nrows            -- x = xcode / 1024
       nrecords { step count { pid x(2) age temp(2) }*count }*nrecords
@@ -75,7 +76,7 @@ Fixpoint check_recs (rs : list (rec pv)) (l : list Z) : option (list Z) :=
 
 Definition parse_setup (c : list Z) : option (setup * list Z) :=
   match c with
-  | st :: sp :: d :: rv :: per :: dn :: dd :: lon :: lod :: hin :: hid :: life :: ncls :: r =>
+  | st :: sp :: d :: rv :: per :: cf0 :: dn :: dd :: lon :: lod :: hin :: hid :: life :: ncls :: r =>
       let '(cf, r1) := p_qs (Z.to_nat ncls) r in
       match r1 with
       | nf :: r2 =>
@@ -84,7 +85,8 @@ Definition parse_setup (c : list Z) : option (setup * list Z) :=
           | nr :: r4 =>
               let '(rows, r5) := p_rows (Z.to_nat nr) r4 in
               Some ({| s_tk := {| start := st; stop := sp; dt := d; ref := 0; rev := negb (rv =? 0) |};
-                       s_files := files; s_tab := rows; s_period := per; s_dtdx := mkQ dn dd;
+                       s_files := files; s_tab := rows;
+                       s_cont := (if cf0 =? 0 then None else Some cf0); s_period := per; s_dtdx := mkQ dn dd;
                        s_lo := mkQ lon lod; s_hi := mkQ hin hid; s_life := life; s_cfac := cf |}, r5)
           | [] => None
           end
